@@ -4,6 +4,8 @@ extern "C" {
 #include <OCTET_STRING.h>
 #include <BIT_STRING.h>
 #include <REAL.h>
+#include <constr_SEQUENCE.h>
+#include <constr_SET.h>
 }
 #pragma weak asn_REAL2double      // programs without REAL do not link REAL.c
 
@@ -157,7 +159,31 @@ static bool rewrite(const uint8_t *p, size_t n, Bytes &o, Rng &rng, const VarCfg
         const uint8_t *c = p + off + t.hdr;
         if(t.constructed) {
             Bytes inner;
-            if(!rewrite(c, t.len, inner, rng, cfg, vs, depth + 1)) return false;
+            Bytes orig(c, c + t.len);
+            bool shuffled = false;
+            if(cfg.hints && cfg.hints->unordered.count(orig) && rng.chance(1, 2)) {
+                // SET / SET OF: present the members in another order (X.690 8.11, 8.12: any order in BER)
+                std::vector<Bytes> kids; size_t ko = 0; bool okk = true;
+                while(ko < t.len) { Tlv k; if(!tlv_parse(c + ko, t.len - ko, k)) { okk = false; break; } kids.push_back(Bytes(c + ko, c + ko + k.total)); ko += k.total; }
+                if(okk && kids.size() > 1) {
+                    for(size_t i = kids.size() - 1; i > 0; i--) std::swap(kids[i], kids[rng.below(i + 1)]);
+                    Bytes re; for(auto &k : kids) re.insert(re.end(), k.begin(), k.end());
+                    if(!rewrite(re.data(), re.size(), inner, rng, cfg, vs, depth + 1)) return false;
+                    shuffled = true; vs.reordered++;
+                }
+            }
+            if(!shuffled && !rewrite(c, t.len, inner, rng, cfg, vs, depth + 1)) return false;
+            if(cfg.hints && cfg.hints->extensible.count(orig) && rng.chance(1, 3)) {
+                // a peer built from a newer version of the specification: unknown extension additions at the end
+                unsigned nadd = 1 + (unsigned)rng.below(2);
+                for(unsigned q = 0; q < nadd; q++) {
+                    static const uint8_t u1[] = {0xbf, 0x4d, 0x01, 0x00}, u2[] = {0x9f, 0x4e, 0x03, 0x61, 0x62, 0x63}, u3[] = {0xbf, 0x4f, 0x05, 0x30, 0x03, 0x02, 0x01, 0x07};
+                    const uint8_t *u = q == 0 ? (rng.chance(1, 2) ? u1 : u2) : u3; size_t ul = u == u1 ? sizeof u1 : u == u2 ? sizeof u2 : sizeof u3;
+                    if(u == u1) { inner.push_back(0x9f); inner.push_back(0x4d); inner.push_back(0x01); inner.push_back(0x00); }
+                    else inner.insert(inner.end(), u, u + ul);
+                }
+                vs.unknown_ext++;
+            }
             emit_tlv(o, t, true, inner, rng, cfg, vs, true);
         } else if(is_univ_string(t) && rng.below(16) < cfg.p_seg && !(t.tagno == 3 && t.len == 0)) {
             Bytes inner;
@@ -202,6 +228,50 @@ void ber_collect_hints(const asn_TYPE_descriptor_t *td, void *st, BerHints &h) {
         } else if(k == K_BIT_STRING) {
             const BIT_STRING_t *s = (const BIT_STRING_t *)n.ptr;
             if(s->buf && s->size) { Bytes b; b.push_back((uint8_t)(s->bits_unused & 7)); b.insert(b.end(), s->buf, s->buf + s->size); h.bitstrings.insert(b); }
+        } else if((k == K_SET || k == K_SET_OF || k == K_SEQUENCE) && h.unordered.size() + h.extensible.size() < 64) {
+            EncResult e = encode_to_vec((asn_TYPE_descriptor_t *)n.td, n.ptr, SY_DER);
+            Tlv t;
+            if(e.encoded > 0 && tlv_parse(e.out.data(), e.out.size(), t) && t.constructed) {
+                // strip every outer tag (EXPLICIT chains) down to the SET / SEQUENCE contents: the innermost constructed header before the members
+                size_t off = 0; Tlv cur = t; size_t base = 0;
+                for(unsigned lv = 1; lv < n.td->tags_count && cur.constructed; lv++) { base += cur.hdr; Tlv in; if(!tlv_parse(e.out.data() + base, e.out.size() - base, in)) break; cur = in; }
+                (void)off;
+                Bytes content(e.out.begin() + base + cur.hdr, e.out.begin() + base + cur.hdr + cur.len);
+                if(k == K_SET || k == K_SET_OF) h.unordered.insert(content);
+                bool ext = false;
+                if(k == K_SEQUENCE) ext = ((const asn_SEQUENCE_specifics_t *)n.td->specifics)->first_extension >= 0;
+                if(k == K_SET) ext = ((const asn_SET_specifics_t *)n.td->specifics)->extensible != 0;
+                if(ext) h.extensible.insert(content);
+            }
+        } else if((k == K_NATIVE_INTEGER || k == K_INTEGER || k == K_NATIVE_ENUMERATED || k == K_ENUMERATED || k == K_BOOLEAN || k == K_OID) && h.alt.size() < 64) {
+            EncResult e = encode_to_vec((asn_TYPE_descriptor_t *)n.td, n.ptr, SY_DER);
+            Tlv t;
+            if(e.encoded > 0 && tlv_parse(e.out.data(), e.out.size(), t)) {
+                size_t base = 0; Tlv cur = t;
+                while(cur.constructed) { base += cur.hdr; Tlv in; if(!tlv_parse(e.out.data() + base, e.out.size() - base, in)) break; cur = in; }
+                if(!cur.constructed && cur.len > 0) {
+                    Bytes key(e.out.begin() + base + cur.hdr, e.out.begin() + base + cur.hdr + cur.len);
+                    std::vector<Bytes> alts;
+                    if(k == K_BOOLEAN) { if(key[0]) { alts.push_back(Bytes{0x01}); alts.push_back(Bytes{0x80}); alts.push_back(Bytes{0x7f}); } }
+                    else if(k == K_OID) { Bytes a = key; a.insert(a.begin() + (a.size() > 1 ? 1 : 0), 0x80); alts.push_back(a); }       // non-minimal subidentifier
+                    else { uint8_t pad = (key[0] & 0x80) ? 0xff : 0x00;                                                                  // redundant sign octets
+                        Bytes a = key; a.insert(a.begin(), pad); alts.push_back(a); a.insert(a.begin(), pad); a.insert(a.begin(), pad); alts.push_back(a); }
+                    if(!alts.empty() && !h.alt.count(key)) h.alt[key] = alts;
+                }
+            }
+        } else if(k == K_STRING && (!strcmp(n.td->name, "GeneralizedTime") || !strcmp(n.td->name, "UTCTime"))) {
+            const OCTET_STRING_t *s = (const OCTET_STRING_t *)n.ptr;
+            if(s->buf && s->size > 6 && h.alt.size() < 64) {
+                Bytes key(s->buf, s->buf + s->size); std::string txt((const char *)s->buf, s->size);
+                std::vector<Bytes> alts;
+                auto add = [&](const std::string &x) { alts.push_back(Bytes(x.begin(), x.end())); };
+                std::string body = txt; char last = txt.back();
+                if(last == 'Z') body = txt.substr(0, txt.size() - 1);
+                add(body + "+0100"); add(body + "-0530"); add(body);                          // offset forms and local time
+                if(!strcmp(n.td->name, "GeneralizedTime")) { add(body + ".5Z"); add(body + ",25Z"); add(body.substr(0, body.size() > 12 ? 12 : body.size()) + "Z"); }
+                else add(body.substr(0, body.size() > 10 ? 10 : body.size()) + "Z");       // UTCTime without seconds
+                h.alt[key] = alts;
+            }
         } else if(k == K_NATIVE_REAL || k == K_REAL) {
             // X.690 8.5: the same REAL may arrive in decimal (ISO 6093 NR1-3, '.' or ',') or other binary forms; asn1c only emits base-2 binary
             EncResult e = encode_to_vec((asn_TYPE_descriptor_t *)n.td, n.ptr, SY_DER);
@@ -229,6 +299,38 @@ void ber_collect_hints(const asn_TYPE_descriptor_t *td, void *st, BerHints &h) {
 // ---------------------------------------------------------------- XER
 void xer_strip_trailing_ws(Bytes &b) {
     while(!b.empty() && (b.back() == ' ' || b.back() == '\n' || b.back() == '\r' || b.back() == '\t')) b.pop_back();
+}
+void xer_variant(const Bytes &x, Rng &rng, Bytes &out, XerVariantStats &vs) {
+    // type-agnostic rewriting of the markup around the values; what the decoder rejects is dropped by the callers' precondition
+    out.clear();
+    unsigned p_ws = (unsigned)rng.below(10), p_cm = (unsigned)rng.below(5), p_et = (unsigned)rng.below(8), p_cr = (unsigned)rng.below(6);
+    size_t n = x.size();
+    for(size_t i = 0; i < n; i++) {
+        uint8_t c = x[i];
+        if(c == '<' && i + 1 < n && x[i + 1] != '/' && x[i + 1] != '!') {
+            // <tag></tag>  ->  <tag/>
+            size_t j = i + 1; while(j < n && x[j] != '>' && x[j] != '/') j++;
+            if(j < n && x[j] == '>') {
+                std::string name((const char *)&x[i + 1], j - i - 1);
+                std::string closing = "</" + name + ">";
+                if(j + 1 + closing.size() <= n && !memcmp(&x[j + 1], closing.data(), closing.size()) && rng.below(16) < p_et) {
+                    out.push_back('<'); out.insert(out.end(), name.begin(), name.end()); out.push_back('/'); out.push_back('>');
+                    i = j + closing.size(); vs.emptytags++;
+                    continue;
+                }
+            }
+        }
+        out.push_back(c);
+        if(c == '>' && i + 1 < n && x[i + 1] == '<') {
+            if(rng.below(16) < p_ws) { static const char *ws[] = {" ", "\n", "\r\n\t", "  \n  "}; const char *w = ws[rng.below(4)]; out.insert(out.end(), w, w + strlen(w)); vs.whitespace++; }
+            if(rng.below(16) < p_cm) { static const char *cm[] = {"<!-- c -->", "<!---->", "<!-- <x> & -->"}; const char *w = cm[rng.below(3)]; out.insert(out.end(), w, w + strlen(w)); vs.comments++; }
+        } else if(c != '>' && c != '<' && c != '&' && c != ';' && c >= 0x20 && c < 0x7f && i > 0 && i + 1 < n) {
+            // inside text: a character may travel as a character reference
+            bool in_text = false;
+            for(size_t b = i; b-- > 0;) { if(x[b] == '>') { in_text = true; break; } if(x[b] == '<') break; }
+            if(in_text && rng.below(64) < p_cr) { char buf[16]; int m = snprintf(buf, sizeof buf, rng.chance(1, 2) ? "&#x%x;" : "&#%u;", (unsigned)c); out.pop_back(); out.insert(out.end(), buf, buf + m); vs.charrefs++; }
+        }
+    }
 }
 void xer_boundaries(const Bytes &b, std::vector<size_t> &out) {
     for(size_t i = 0; i < b.size(); i++) {
